@@ -4,7 +4,7 @@
 P=$1; shift
 mkdir -p /tmp/seedtest; cp /verif/known_findings.json /verif/properties.jsonl /tmp/seedtest/
 git -C /repo apply --3way "$P" 2>/tmp/seedtest/apply.err || git -C /repo apply "$P" || { echo "PATCH DOES NOT APPLY"; cat /tmp/seedtest/apply.err; git -C /repo checkout -- .; exit 2; }
-/verif/check build || { git -C /repo checkout -- . ; git -C /repo reset -q; exit 2; }
+/verif/check build || { git -C /repo reset -q; git -C /repo checkout -- . ; exit 2; }
 for c in "$@"; do
   VERIF_DIR=/tmp/seedtest VERIF_NO_MINIMISE=${NOMIN:-1} /verif/sim/target/release/simctl check $c --tier ${TIER:-quick} > /tmp/seedtest/$c.log 2>&1
   echo "$c exit=$? $(tail -1 /tmp/seedtest/$c.log)"
